@@ -104,7 +104,7 @@ func (e *Engine) staticCall(st *State, fn *ssa.Function, args, bindings []Val, r
 	if outs, ok := e.model(st, name, fn, args, rt, in); ok {
 		return outs
 	}
-	if isPrismFn(fn) && len(fn.Blocks) > 0 && (e.Opaque == nil || !e.Opaque(fn)) {
+	if isPrismFn(fn) && len(fn.Blocks) > 0 && (e.Opaque == nil || !e.Opaque(fn)) && (e.InlineIf == nil || e.InlineIf(st, fn, args, bindings)) {
 		if e.TraceCalls != nil && e.TraceCalls(fn) {
 			st.addEvent(Event{Kind: "trace", Fn: shortFn(fn), Args: args, Pos: in.Pos()})
 		}
@@ -122,7 +122,7 @@ func (e *Engine) staticCall(st *State, fn *ssa.Function, args, bindings []Val, r
 		cname = fmt.Sprintf("call:%s@%d", short, n)
 	}
 	res := e.appOfType(cname, rt, args...)
-	st.addEvent(Event{Kind: "call", Fn: short, Args: args, Res: res, Pos: in.Pos()})
+	st.addEvent(Event{Kind: "call", Fn: short, Args: args, Res: res, Pos: in.Pos(), Callee: fn})
 	return []Outcome{valueOutcome(st, res)}
 }
 
